@@ -477,7 +477,7 @@ pub fn c17(data: &[u8]) -> Option<c17::Case> {
         _ => Some(""),
     }
     .map(str::to_string);
-    Some(c17::Case { items, kind, special, ignore_special: flags & 1 != 0, task: (flags >> 1) % 4, mask_input: flags & 8 != 0, separator, target_reversed: flags & 128 != 0, big_cluster: 0 })
+    Some(c17::Case { items, kind, special, ignore_special: flags & 1 != 0, task: (flags >> 1) % 4, mask_input: flags & 8 != 0, separator, target_reversed: flags & 128 != 0, big_cluster: 0, mixed_agg: flags & 64 != 0 })
 }
 
 pub fn c15(data: &[u8]) -> Option<c15::Case> {
